@@ -229,6 +229,72 @@ fn class_file_cases(enc: &Encoded, randoms: &[(u32, u8)], visit: &mut Visit) -> 
 	true
 }
 
+/// (offset of the u16 length, length) of every CONSTANT_Utf8 of a class file whose pool can be walked
+fn utf8_entries(b: &[u8]) -> Vec<(usize, usize)> {
+	let mut out = Vec::new();
+	if b.len() < 10 {
+		return out;
+	}
+	let count = u16::from_be_bytes([b[8], b[9]]) as usize;
+	let mut p = 10;
+	let mut i = 1;
+	while i < count && p < b.len() {
+		let step = match b[p] {
+			1 => {
+				if p + 3 > b.len() {
+					break;
+				}
+				let len = u16::from_be_bytes([b[p + 1], b[p + 2]]) as usize;
+				if p + 3 + len > b.len() {
+					break;
+				}
+				out.push((p + 1, len));
+				3 + len
+			}
+			3 | 4 | 9 | 10 | 11 | 12 | 17 | 18 => 5,
+			5 | 6 => {
+				i += 1;
+				9
+			}
+			7 | 8 | 16 | 19 | 20 => 3,
+			15 => 4,
+			_ => break,
+		};
+		p += step;
+		i += 1;
+	}
+	out
+}
+
+/// replacement contents for a Utf8 constant: the strings at which name and descriptor handling changes behaviour
+const HOSTILE_UTF8: &[&[u8]] = &[
+	b"", b"L", b"[", b"(", b")", b"()", b"(L", b"L;", b"[[", b";", b"V", b"J", b"D", b"[J", b"(J", b"()J", b"(D)D", b"<", b"<init>", b"<clinit>", b"a//b", b"/", b"a/", b"/a", b".", b"[L", b"[L;", b"[La;", b"(;)V", b"()L;", b"LL;;",
+	b"(La;", b"(La;)", b"()[", b"$", b"a$", b"$a", b"a$$b", b"1", b"a$1", b"\xc0\x80", b"\xff", b"\xc3", b"\xed\xa0\x80", b"\xed\xa0\x80\xed\xb0\x80", b"Code", b"StackMapTable", b"Signature",
+];
+
+/// every Utf8 constant replaced by every hostile content (a local edit: nothing in a class file addresses the pool by offset)
+fn utf8_replacement_cases(bytes: &[u8], visit: &mut Visit) -> bool {
+	for (off, len) in utf8_entries(bytes) {
+		let cur = &bytes[off + 2..off + 2 + len];
+		for rep in HOSTILE_UTF8 {
+			if *rep == cur {
+				continue;
+			}
+			let m = Meta { target: Target::DukeTree, fault: "utf8_constant_replaced", role: String::from_utf8_lossy(rep).into_owned(), nontrivial: true };
+			if !visit(&m, &|| {
+				let mut b = bytes[..off].to_vec();
+				b.extend_from_slice(&(rep.len() as u16).to_be_bytes());
+				b.extend_from_slice(rep);
+				b.extend_from_slice(&bytes[off + 2 + len..]);
+				b
+			}) {
+				return false;
+			}
+		}
+	}
+	true
+}
+
 // ---------------------------------------------------------------------------------------------
 // hand-assembled hostile class files
 
@@ -571,6 +637,9 @@ pub fn enumerate(seed: u64, tier: Tier, visit: &mut Visit) {
 		if !class_file_cases(&enc, &randoms, visit) {
 			return;
 		}
+		if (thorough || k % 2 == 0) && !utf8_replacement_cases(&enc.bytes, visit) {
+			return;
+		}
 	}
 	// javac-compiled classes: no field map, so offset-based mutations
 	let corpus = crate::corpus::load();
@@ -611,6 +680,14 @@ pub fn enumerate(seed: u64, tier: Tier, visit: &mut Visit) {
 					return;
 				}
 			}
+		}
+	}
+	for (ci, (_, bytes)) in corpus.iter().enumerate() {
+		if bytes.len() > 4000 || (!thorough && ci % 8 != 0) {
+			continue;
+		}
+		if !utf8_replacement_cases(bytes, visit) {
+			return;
 		}
 	}
 	for (fault, bytes) in hostile_class_files(thorough) {
